@@ -1,27 +1,38 @@
-(* C13 — CBO, subscripted forms outside Class/Syntax.v (parametrised base class, module-qualified generic
+(* C13 — CBO, subscripted forms next to Class/Syntax.v (parametrised base class, module-qualified generic
    container).  Only property theorems, each closed by [exact] of a lemma of Class/CBOGenericProofs.v.
 
    FULL statement for these forms: the dependency set contains the base class of  class K(Base[T])  and the
-   classes named inside  x: mod.Container[T].  It is FALSE of the current code (finding F41): both readers of a
-   Subscript node in cbo.go look at node.Right / Children[1], buildSubscript fills Value / Children[0]. *)
+   classes named inside  x: mod.Container[T].  Proved: C13_generic_base_counted, C13_qualified_generic_exact.
+   (Before fix: commits aa7c715 and b2f1993 it was false, finding F41: both readers of a Subscript node in
+   cbo.go looked at node.Right / Children[1], buildSubscript fills Value / Children[0..]; and the parser kept
+   only the first subscript argument.) *)
 From Coq Require Import ZArith NArith List String.
-From PV Require Import Class.Syntax Class.SetK Class.CBO Class.CBOGeneric Class.CBOGenericProofs.
+From PV Require Import Class.Syntax Class.SetK Class.CBO Class.CBOProofs Class.CBOGeneric Class.CBOGenericProofs.
 Import ListNotations.
 
-Theorem C13_generic_base_refuted :
-  generic_base_deps default_options w_gbase = [] /\ generic_base_required w_gbase = [Plain (nm "Repository")].
-Proof. exact cbo_generic_base_refuted. Qed.
+(* class K(Base[A1, ..., An]): Base is counted (unless a built-in), for every argument list; and what is
+   counted is within what the class names *)
+Theorem C13_generic_base_counted : forall g, ref_ok (gb_base g) ->
+  generic_base_deps default_options g = generic_base_required g /\
+  (forall z, In z (generic_base_deps default_options g) -> In z (generic_base_allowed g)).
+Proof. exact generic_base_counted_within. Qed.
 
-Theorem C13_qualified_generic_refuted :
-  qualified_generic_deps default_options (Qual (nm "typing") (nm "List")) [Plain (nm "User")] = [] /\
-  qualified_generic_spec [Plain (nm "User")] = [Plain (nm "User")].
-Proof. exact cbo_qualified_generic_refuted. Qed.
+(* x: mod.Container[T1, ..., Tn]: exactly the classes named as type arguments, built-ins excluded *)
+Theorem C13_qualified_generic_exact : forall c args, Forall ref_ok args ->
+  set_of (qualified_generic_deps default_options c args) = qualified_generic_spec args.
+Proof. exact qualified_generic_exact. Qed.
 
-(* ... and for every base / container / argument list: a Subscript node never contributes *)
-Theorem C13_subscript_never_counted : forall o g c args,
-  generic_base_deps o g = [] /\ qualified_generic_deps o c args = [].
-Proof. exact subscript_never_counted. Qed.
+(* the former counterexamples *)
+Theorem C13_generic_base_witness_counted :
+  generic_base_deps default_options w_gbase = [Plain (nm "Repository")] /\ generic_base_required w_gbase = [Plain (nm "Repository")].
+Proof. exact cbo_generic_base_counted. Qed.
 
-Print Assumptions C13_generic_base_refuted.
-Print Assumptions C13_qualified_generic_refuted.
-Print Assumptions C13_subscript_never_counted.
+Theorem C13_qualified_generic_witness_counted :
+  qualified_generic_deps default_options (Qual (nm "typing") (nm "Dict")) [Plain (nm "str"); Plain (nm "User")] = [Plain (nm "User")] /\
+  qualified_generic_spec [Plain (nm "str"); Plain (nm "User")] = [Plain (nm "User")].
+Proof. exact cbo_qualified_generic_counted. Qed.
+
+Print Assumptions C13_generic_base_counted.
+Print Assumptions C13_qualified_generic_exact.
+Print Assumptions C13_generic_base_witness_counted.
+Print Assumptions C13_qualified_generic_witness_counted.
